@@ -113,10 +113,11 @@ type nbSystem struct {
 
 func startNB(kind int) *nbSystem {
 	sys := &nbSystem{kind: kind}
+	secured := hx.G(2) == 1
 	starter := rt.GoHarness("server-start", serverHost, func() {
 		switch kind {
 		case 1:
-			s, err := nbtns.NewServer(":137", true)
+			s, err := nbtns.NewServer(":137", secured)
 			if err != nil {
 				sys.err = err
 				return
@@ -124,7 +125,7 @@ func startNB(kind int) *nbSystem {
 			sys.s1 = s
 			sys.err = s.Start()
 		case 2:
-			sys.table = nbtns.NewNetBIOSNameServer(true)
+			sys.table = nbtns.NewNetBIOSNameServer(secured)
 			u, err := nbtns.NewUDPServer(":137", sys.table)
 			if err != nil {
 				sys.err = err
